@@ -8,7 +8,7 @@ import (
 // ---- model documents (CommonMark constructs whose meaning is fixed by construction)
 
 const (
-	iWord = iota
+	iWord   = iota
 	iEsc    // one literal punctuation character, spelled as an escape
 	iCode   // code span
 	iEm     // emphasis
@@ -80,6 +80,24 @@ func escHTML(s string) string {
 	return r.Replace(s)
 }
 
+// refURL percent-encodes a destination the way the reference implementation does (mdurl.encode with the default
+// exclusion set): ASCII letters, digits and ;/?:@&=+$,-_.!~*'()# stay, existing %XX stay, everything else is encoded.
+func refURL(u string) string {
+	var b strings.Builder
+	for i := 0; i < len(u); i++ {
+		c := u[i]
+		switch {
+		case c >= 'a' && c <= 'z' || c >= 'A' && c <= 'Z' || c >= '0' && c <= '9' || strings.IndexByte(";/?:@&=+$,-_.!~*'()#", c) >= 0:
+			b.WriteByte(c)
+		case c == '%' && i+2 < len(u) && isHex(u[i+1]) && isHex(u[i+2]):
+			b.WriteByte(c)
+		default:
+			fmt.Fprintf(&b, "%%%02X", c)
+		}
+	}
+	return b.String()
+}
+
 // decodeDest turns the model's destination/title notation into the literal text.
 func decodeLit(s string) string { return strings.ReplaceAll(s, "\x01", "") }
 
@@ -122,7 +140,7 @@ func (o *refOut) inlines(seq []Inl) {
 			o.inlines(x.Kids)
 			o.lit("</strong>")
 		case iLink:
-			o.lit("<a href=\"" + escHTML(decodeLit(x.Dest)) + "\"")
+			o.lit("<a href=\"" + escHTML(refURL(decodeLit(x.Dest))) + "\"")
 			if x.Title != "" {
 				o.lit(" title=\"" + escHTML(decodeLit(x.Title)) + "\"")
 			}
@@ -130,7 +148,7 @@ func (o *refOut) inlines(seq []Inl) {
 			o.inlines(x.Kids)
 			o.lit("</a>")
 		case iImage:
-			o.lit("<img src=\"" + escHTML(decodeLit(x.Dest)) + "\" alt=\"" + escHTML(plainText(x.Kids)) + "\"")
+			o.lit("<img src=\"" + escHTML(refURL(decodeLit(x.Dest))) + "\" alt=\"" + escHTML(plainText(x.Kids)) + "\"")
 			if x.Title != "" {
 				o.lit(" title=\"" + escHTML(decodeLit(x.Title)) + "\"")
 			}
@@ -140,7 +158,7 @@ func (o *refOut) inlines(seq []Inl) {
 			if !strings.Contains(x.S, ":") {
 				href = "mailto:" + x.S
 			}
-			o.lit("<a href=\"" + escHTML(href) + "\">" + escHTML(x.S) + "</a>")
+			o.lit("<a href=\"" + escHTML(refURL(href)) + "\">" + escHTML(x.S) + "</a>")
 		case iRaw:
 			o.lit(x.S)
 		case iHard:
@@ -270,9 +288,10 @@ type pline struct {
 }
 
 type mdPrinter struct {
-	ch    *chooser
-	defs  []refDef
-	depth int // container depth (tabs are only used at depth 0, where columns are absolute)
+	ch       *chooser
+	defs     []refDef
+	depth    int    // container depth (tabs are only used at depth 0, where columns are absolute)
+	lastMark string // marker character / delimiter of the list printed last at the current nesting level
 }
 
 var namedEnt = map[string]string{"*": "ast", "_": "lowbar", "`": "grave", "<": "lt", ">": "gt", "&": "amp", "\"": "quot", "\\": "bsol", "[": "lsqb", "]": "rsqb", "#": "num", "!": "excl", "(": "lpar", ")": "rpar", "-": "hyphen", "+": "plus", "=": "equals", "~": "tilde"}
@@ -283,7 +302,11 @@ func (p *mdPrinter) esc(c string, what string) string {
 	if named == "" {
 		n = 5
 	}
-	switch p.ch.pick("escape-"+what, n) {
+	k := p.ch.pick("escape-"+what, n)
+	if k == 0 && !strings.Contains("!\"#$%&'()*+,-./:;<=>?@[\\]^_`{|}~", c) {
+		k = 1 // only ASCII punctuation can be backslash-escaped
+	}
+	switch k {
 	case 0:
 		return "\\" + c
 	case 1:
@@ -322,9 +345,9 @@ func simpleLabel(seq []Inl) bool {
 }
 
 func (p *mdPrinter) label(dest, title string) string {
-	for i, d := range p.defs {
-		if d.dest == dest && d.title == title {
-			return fmt.Sprintf("lbl%d", i)
+	for _, d := range p.defs {
+		if d.dest == dest && d.title == title && d.label != "\x00unclosed" {
+			return d.label
 		}
 	}
 	p.defs = append(p.defs, refDef{fmt.Sprintf("lbl%d", len(p.defs)), dest, title})
@@ -508,17 +531,19 @@ func (p *mdPrinter) leadIndent(allowed bool) string {
 }
 
 type blkCtx struct {
-	avoidBullet  string // bullet characters that would merge with / be mistaken for a neighbour
-	prevList     bool   // previous sibling is a list
-	prevPara     bool
-	firstInItem  bool
-	lastInDoc    bool
-	itemBullet   string // bullet of the enclosing list item when this is its first block
-	noDefsFollow bool
+	avoidBullet      string // bullet characters that would merge with / be mistaken for a neighbour
+	prevList         bool   // previous sibling is a list
+	prevPara         bool
+	firstInItem      bool
+	lastInDoc        bool
+	itemBullet       string // bullet of the enclosing list item when this is its first block
+	noDefsFollow     bool
+	noBlankAfterPara bool // directly follows a paragraph with no blank line in between
+	prevCode         bool
 }
 
 func (p *mdPrinter) block(b Blk, cx blkCtx) []pline {
-	indentOK := !cx.prevList
+	indentOK := !cx.prevList && !cx.firstInItem
 	switch b.K {
 	case bPara:
 		ind := p.leadIndent(indentOK)
@@ -555,7 +580,7 @@ func (p *mdPrinter) block(b Blk, cx blkCtx) []pline {
 		ul := []string{strings.Repeat(c, 3), strings.Repeat(c, 9), strings.Repeat(c, 2), "  " + strings.Repeat(c, 4) + "  "}[p.ch.pick("setext-underline", 4)]
 		return append(out, pline{ul, false})
 	case bThematic:
-		opts := []string{"***", "---", "___", "* * *", "-  -  -", "_____", " **  * ** * ** * **"}
+		opts := []string{"***", "---", "___", "* * *", "-  -  -", "_____", "**  * ** * ** * **"}
 		var ok []string
 		for _, o := range opts {
 			if cx.prevPara && strings.HasPrefix(strings.TrimSpace(o), "-") {
@@ -564,15 +589,18 @@ func (p *mdPrinter) block(b Blk, cx blkCtx) []pline {
 			if cx.firstInItem && cx.itemBullet != "" && strings.HasPrefix(strings.TrimSpace(o), cx.itemBullet) {
 				continue // "- - - -" would itself be a thematic break instead of an item holding one
 			}
+			if cx.firstInItem {
+				o = strings.TrimLeft(o, " ") // leading spaces would move the item's content column
+			}
 			ok = append(ok, o)
 		}
-		return []pline{{p.leadIndent(indentOK && !cx.firstInItem) + ok[p.ch.pick("thematic", len(ok))], false}}
+		return []pline{{p.leadIndent(indentOK) + ok[p.ch.pick("thematic", len(ok))], false}}
 	case bCode:
 		lines := strings.Split(b.Text, "\n")
 		if b.Text == "\x00" {
 			lines = nil
 		}
-		indentedOK := b.Info == "" && !cx.prevList && !cx.prevPara && !cx.firstInItem && len(lines) > 0 && strings.TrimSpace(lines[0]) != "" && strings.TrimSpace(lines[len(lines)-1]) != ""
+		indentedOK := b.Info == "" && !cx.prevList && !cx.prevPara && !cx.prevCode && !cx.firstInItem && len(lines) > 0 && strings.TrimSpace(lines[0]) != "" && strings.TrimSpace(lines[len(lines)-1]) != ""
 		n := 6
 		if indentedOK {
 			n = 8
@@ -595,11 +623,11 @@ func (p *mdPrinter) block(b Blk, cx blkCtx) []pline {
 		}
 		fence := []string{"```", "~~~", "````", "~~~~~", "```", "~~~"}[c]
 		closer := fence
-		if c == 4 {
-			closer = fence + "~~"
+		if c == 3 {
+			closer = fence + fence[:2]
 		}
 		ind := ""
-		if c == 5 {
+		if c == 5 && indentOK {
 			ind = spaces(1 + p.ch.pick("fence-indent", 3))
 		}
 		unclosed := cx.lastInDoc && p.depth == 0 && p.ch.pick("fence-unclosed-at-end", 2) == 1
@@ -623,9 +651,9 @@ func (p *mdPrinter) block(b Blk, cx blkCtx) []pline {
 		return out
 	case bQuote:
 		p.depth++
-		kids := p.blocks(b.Kids, false, "")
+		kids := p.blocks(b.Kids, false, false, "")
 		p.depth--
-		ind := p.leadIndent(indentOK && !cx.firstInItem)
+		ind := p.leadIndent(indentOK)
 		tight := p.ch.pick("quote-marker-space", 2) == 1
 		var out []pline
 		for i, l := range kids {
@@ -637,9 +665,9 @@ func (p *mdPrinter) block(b Blk, cx blkCtx) []pline {
 			case l.s == "":
 				out = append(out, pline{ind + ">", false})
 			case tight && l.s[0] != ' ' && l.s[0] != '\t':
-				out = append(out, pline{ind + ">" + l.s, l.cont})
+				out = append(out, pline{ind + ">" + l.s, false})
 			default:
-				out = append(out, pline{ind + "> " + l.s, l.cont})
+				out = append(out, pline{ind + "> " + l.s, false})
 			}
 		}
 		return out
@@ -660,6 +688,7 @@ func (p *mdPrinter) block(b Blk, cx blkCtx) []pline {
 			}
 		}
 		mark := marks[p.ch.pick("list-marker", len(marks))]
+		defer func() { p.lastMark = mark }()
 		lind := 0
 		if indentOK && !cx.firstInItem {
 			lind = p.ch.pick("list-indent", 4)
@@ -673,7 +702,7 @@ func (p *mdPrinter) block(b Blk, cx blkCtx) []pline {
 			nsp := 1 + p.ch.pick("marker-spaces", 4)
 			w := lind + len(m) + nsp
 			p.depth++
-			kids := p.blocks(it, b.Tight, map[bool]string{true: "", false: mark}[b.Ordered])
+			kids := p.blocks(it, b.Tight, true, map[bool]string{true: "", false: mark}[b.Ordered])
 			p.depth--
 			gap := spaces(nsp)
 			if p.depth == 0 && nsp > 1 {
@@ -683,7 +712,8 @@ func (p *mdPrinter) block(b Blk, cx blkCtx) []pline {
 				}
 			}
 			nextLine := false
-			if len(kids) > 0 && kids[0].s != "" && it[0].K != bCode {
+			// an empty list item cannot interrupt a paragraph
+			if len(kids) > 0 && kids[0].s != "" && it[0].K != bCode && !(ii == 0 && cx.noBlankAfterPara) {
 				nextLine = p.ch.pick("item-content-on-next-line", 2) == 1
 				if nextLine {
 					w = lind + len(m) + 1
@@ -725,25 +755,25 @@ func (p *mdPrinter) block(b Blk, cx blkCtx) []pline {
 
 // blocks prints sibling blocks. In a tight list item no blank line may appear; elsewhere siblings are separated by one
 // blank line unless the pair is on the whitelist of constructs that may follow each other directly.
-func (p *mdPrinter) blocks(bs []Blk, tight bool, itemBullet string) []pline {
+func (p *mdPrinter) blocks(bs []Blk, tight bool, inItem bool, itemBullet string) []pline {
 	var out []pline
 	for i, b := range bs {
-		cx := blkCtx{firstInItem: i == 0 && p.depth > 0 && itemBullet != "\x00", itemBullet: itemBullet}
-		if itemBullet == "" && !(p.depth > 0) {
-			cx.firstInItem = false
-		}
+		cx := blkCtx{firstInItem: i == 0 && inItem, itemBullet: itemBullet}
 		if i > 0 {
 			prev := bs[i-1]
 			cx.prevList = prev.K == bList
 			cx.prevPara = prev.K == bPara
+			cx.prevCode = prev.K == bCode
 			if prev.K == bList {
 				if prev.Ordered == b.Ordered {
-					cx.avoidBullet = lastMarker(out)
+					cx.avoidBullet = p.lastMark
 				}
 			}
 			sep := true
 			if tight {
 				sep = false
+			} else if inItem {
+				// a blank line inside a list item may be what makes the list loose: never omitted
 			} else if (prev.K == bHeading && !lastIsSetext(out) || prev.K == bThematic) && (b.K == bPara || b.K == bHeading || b.K == bQuote) ||
 				prev.K == bPara && (b.K == bQuote || b.K == bCode && false) {
 				sep = p.ch.pick("no-blank-line-between", 2) == 0
@@ -751,9 +781,7 @@ func (p *mdPrinter) blocks(bs []Blk, tight bool, itemBullet string) []pline {
 			if sep {
 				out = append(out, pline{"", false})
 			}
-			if !sep {
-				cx.prevPara = prev.K == bPara
-			}
+			cx.noBlankAfterPara = !sep && prev.K == bPara
 		}
 		cx.lastInDoc = i == len(bs)-1 && p.depth == 0
 		lines := p.block(b, cx)
@@ -800,7 +828,7 @@ func markersBefore(out []pline, i int) string { return "" }
 // choice points met (for enumeration of deviations).
 func PrintMarkdown(doc []Blk, over map[int]int) (string, []choicePoint) {
 	p := &mdPrinter{ch: &chooser{over: over}}
-	lines := p.blocks(doc, false, "\x00")
+	lines := p.blocks(doc, false, false, "")
 	unclosed := false
 	var defs []refDef
 	for _, d := range p.defs {
@@ -836,7 +864,11 @@ func PrintMarkdown(doc []Blk, over map[int]int) (string, []choicePoint) {
 		}
 	}
 	s := strings.Join(text, "\n")
-	switch p.ch.pick("final-newline", 3) {
+	nfinal := 3
+	if unclosed {
+		nfinal = 2 // a further blank line would become content of the unclosed code block
+	}
+	switch p.ch.pick("final-newline", nfinal) {
 	case 0:
 		s += "\n"
 	case 2:
